@@ -1642,13 +1642,29 @@ def tls_oracle(case):
     b2 = Buffer(capacity=len(data) + 4096)
     try:
         push(b2, m)
-    except Exception:
-        return None               # decoded values the encoder's API does not accept (None lists): out of the encoder's domain
+    except Exception as e:
+        # <msg>_reencode (proofs/TlsReencodeExt*.v, TlsReencodeCH.v): whatever pull accepts re-encodes without error, except
+        # when an Optional[list] attribute that push iterates unconditionally was left None by the decoder (second disjunct of
+        # certificate_request_reencode / client_hello_reencode; the real push raises TypeError)
+        none_list = ((kind == 1 and None in (m.key_share, m.supported_versions, m.signature_algorithms, m.supported_groups))
+                     or (kind == 13 and m.signature_algorithms is None))
+        if isinstance(e, TypeError) and none_list:
+            TLS_DOMAIN["reencode_none_list_typeerror"] += 1
+            # candidate finding F14 (docs/C17.md): listed in the evidence, not failed
+            CANDIDATES.setdefault(("tls-reencode-TypeError", kind), {
+                "signature": {"codec": "tls", "rule": "reencode_raise", "exception": "TypeError", "message": kind}, "case": case})
+            return None
+        return ("decoded TLS message (type %d) does not re-encode: %s" % (kind, type(e).__name__),
+                {"codec": "tls", "rule": "reencode_raise", "message": kind, "exception": type(e).__name__})
+    if len(b2.data) > b.tell():
+        return ("re-encoded TLS message (type %d) is longer than the bytes consumed" % kind, {"codec": "tls", "rule": "reencode_longer", "message": kind})
+    TLS_DOMAIN["reencode_same_bytes" if b2.data == data[:b.tell()] else "reencode_different_bytes"] += 1
     try:
-        m2 = pull(Buffer(data=b2.data))
+        r2 = Buffer(data=b2.data + b"\xaa\xbb")
+        m2 = pull(r2)
     except Exception as e:
         return ("re-encoded TLS message (type %d) does not decode: %s" % (kind, type(e).__name__), {"codec": "tls", "rule": "reencode", "message": kind})
-    if m2 != m:
+    if m2 != m or r2.tell() != len(b2.data):
         return ("decoded TLS message (type %d) does not re-encode to the same value" % kind, {"codec": "tls", "rule": "reencode", "message": kind})
     return None
 
@@ -1698,6 +1714,27 @@ def tls_gen(ctx, rng, n):
             cases.append({"s": "tls", "op": ["pull", kind, H(data)]})
         elif r < 0.95:
             cases.append({"s": "tls", "op": ["pull", kind, H(data[:rng.randint(0, len(data))])]})
+        # accepted-but-not-canonical inputs (the <msg>_reencode theorems): permuted / duplicated extensions, a lying extension_length
+        xpath = {1: 5, 2: 5, 4: 4, 8: 0, 13: 1}.get(kind)
+        if xpath is not None and i % 6 == 0:
+            t = tls_tree(kind, m)
+            flat = t[1][2][xpath][2]
+            pairs = [flat[j:j + 2] for j in range(0, len(flat), 2)]
+            if pairs:
+                how = rng.choice(["shuffle", "dup", "lie", "drop"])
+                if how == "shuffle":
+                    rng.shuffle(pairs)
+                elif how == "dup":
+                    pairs.insert(rng.randint(0, len(pairs)), rng.choice(pairs))
+                elif how == "drop":
+                    pairs.pop(rng.randrange(len(pairs)))
+                t[1][2][xpath][2] = [x for pr in pairs for x in pr]
+                raw = b"".join(tree_bytes(x) for x in t)
+                if how == "lie":
+                    # overwrite the declared length of the first extension with another value, keeping the body
+                    off = len(raw) - len(b"".join(tree_bytes(x) for x in t[1][2][xpath][2]))
+                    raw = raw[:off + 2] + rng.choice([0, 1, 0xFFFF]).to_bytes(2, "big") + raw[off + 4:]
+                cases.append({"s": "tls", "op": ["pull", kind, H(raw)]})
         else:
             cases.append({"s": "tls", "op": ["pull", kind, H(bytes([kind]) + rbytes(rng, rng.randint(0, 40)))]})
     # boundaries of the round-trip domain: blocks that do not fit their length prefix (OverflowError on both sides),
@@ -1756,6 +1793,8 @@ def _simplify(op):
     for i, x in enumerate(op):
         if i == 0:
             continue
+        if i == 1 and op[0] == "pull" and len(op) == 3 and x in (1, 2, 4, 8, 11, 13, 15, 20):
+            continue   # a TLS handshake type (or a host_cid_length with such a value): halving it changes which decoder runs
         if isinstance(x, str) and x:
             for y in (x[:-2], x[2:], "00" * (len(x) // 2)):
                 if y != x:
